@@ -36,9 +36,10 @@ pub enum Ev {
     Include,
     IfNotNotD,
     IfZeqZ,
+    Pragma,
 }
 
-pub const EVENTS: [Ev; 26] = [
+pub const EVENTS: [Ev; 27] = [
     Ev::If0,
     Ev::If1,
     Ev::IfD,
@@ -65,6 +66,7 @@ pub const EVENTS: [Ev; 26] = [
     Ev::Include,
     Ev::IfNotNotD,
     Ev::IfZeqZ,
+    Ev::Pragma,
 ];
 
 #[derive(Clone, Debug, PartialEq, Eq, Hash)]
@@ -115,6 +117,7 @@ fn text_of(ev: Ev, k: usize) -> String {
         Ev::Include => format!("#include \"c07inc{}.h\"", k),
         Ev::IfNotNotD => "#if !!D".into(),
         Ev::IfZeqZ => "#if Z == Z".into(),
+        Ev::Pragma => "#pragma once".into(),
     }
 }
 
@@ -218,6 +221,7 @@ fn run_history(hist: &[Ev], incdir: &str) -> StepResult {
     let mut expect_markers: Vec<(String, bool)> = Vec::new();
     let mut expect_active: Vec<bool> = vec![true];
     let mut expect_error_line: Option<u32> = None;
+    let mut expect_error_is_pragma = false;
     for (k, ev) in hist.iter().enumerate() {
         src.push_str(&text_of(*ev, k));
         src.push('\n');
@@ -225,9 +229,10 @@ fn run_history(hist: &[Ev], incdir: &str) -> StepResult {
         match ev {
             Ev::Marker => expect_markers.push((format!("m{}", k), active_before)),
             Ev::Include => expect_markers.push((format!("inc{}", k), active_before)),
-            Ev::Error => {
+            Ev::Error | Ev::Pragma => {
                 if active_before && expect_error_line.is_none() {
                     expect_error_line = Some(k as u32 + 2);
+                    expect_error_is_pragma = *ev == Ev::Pragma;
                 }
             }
             _ => {}
@@ -241,7 +246,9 @@ fn run_history(hist: &[Ev], incdir: &str) -> StepResult {
     if let Some(el) = expect_error_line {
         // the history ends in an active #error: Err with that line, nothing else
         return match out {
-            Outcome::Err(e) if e.kind == "Compiler" && e.line == el && e.msg == "stop here" && e.filename == "in.c" => StepResult { key: None, failure: None },
+            Outcome::Err(e) if !expect_error_is_pragma && e.kind == "Compiler" && e.line == el && e.msg == "stop here" && e.filename == "in.c" => StepResult { key: None, failure: None },
+            // an unknown directive in active text is refused at its line (in a skipped region it has no effect)
+            Outcome::Err(e) if expect_error_is_pragma && e.kind == "Syntax" && e.line == el && e.filename == "in.c" => StepResult { key: None, failure: None },
             other => StepResult { key: None, failure: Some(("error-not-raised".into(), format!("expected the active #error on line {} to be reported, got {:?}\n{}", el, short(&other), show(&src)))) },
         };
     }
@@ -404,7 +411,7 @@ impl Check for C07 {
         true
     }
     fn rule(&self) -> String {
-        "Explicit-state breadth-first search over directive histories. A state is the pair (implementation state read through hook H1: the (state, stack) of cpp::process after the last line plus whether macro M is defined in its Context; reference state: stack of frames {parent active, branch taken, branch selected, else seen} plus M defined). Events: 14 opening forms (#if 0/1/D/Z/!D/!!D/D == 1/Z == Z, #ifdef/#ifndef D/U/M), 5 #elif forms, #else, #endif, a marker declaration, #define M, #undef M, #error, #include of a header that declares a variable; an event is enabled where the arrangement stays well formed and nesting <= bound. Every transition compiles 'history + event' with the real compile(); invariants checked on every transition: implementation active iff reference active after every line; each marker/included declaration reaches CompilerState.variables iff its region is active; M defined afterwards iff its #define was active and not undone; an active #error yields Err(Compiler) with its line, an inactive one has no effect. Search runs to a fixpoint (no new state pair), so histories of unbounded length within the nesting bound are covered.".into()
+        "Explicit-state breadth-first search over directive histories. A state is the pair (implementation state read through hook H1: the (state, stack) of cpp::process after the last line plus whether macro M is defined in its Context; reference state: stack of frames {parent active, branch taken, branch selected, else seen} plus M defined). Events: 14 opening forms (#if 0/1/D/Z/!D/!!D/D == 1/Z == Z, #ifdef/#ifndef D/U/M), 5 #elif forms, #else, #endif, a marker declaration, #define M, #undef M, #error, an unknown directive (#pragma), #include of a header that declares a variable; an event is enabled where the arrangement stays well formed and nesting <= bound. Every transition compiles 'history + event' with the real compile(); invariants checked on every transition: implementation active iff reference active after every line; each marker/included declaration reaches CompilerState.variables iff its region is active; M defined afterwards iff its #define was active and not undone; an active #error yields Err(Compiler) with its line and an active unknown directive Err(Syntax) with its line; inactive ones have no effect. Search runs to a fixpoint (no new state pair), so histories of unbounded length within the nesting bound are covered.".into()
     }
     fn assumptions(&self) -> Vec<String> {
         vec![
